@@ -48,7 +48,18 @@ def kern_outcome(encoding):
     """K(cell): the token the kern importer returns for the cell, None if it raises.  Symbolic runs read the outcome the
     assumed contract produced on this path; native runs ask the real (fresh) kern importer."""
     if symbolic_run():
-        return ghost_get('K.token', None)
+        if ghost_get('K.raises', None) is not None:
+            return ghost_get('K.token', None)          # the outcome the importer saw on this path
+        # the importer did not consult the kern parser on this path: K(cell) is still whatever it is
+        if havoc_bool('K.raises'):
+            return None
+        tok = SimpleToken.__new__(SimpleToken)
+        tok.encoding = havoc_str('K.encoding')
+        tok.category = havoc_enum('K.category', TokenCategory)
+        tok.hidden = havoc_bool('K.hidden')
+        ghost_set('K.raises', False)
+        ghost_set('K.token', tok)
+        return tok
     try:
         return KernSpineImporter().import_token(encoding)
     except Exception:
